@@ -469,7 +469,7 @@ Section Proofs.
 
   Notation step := (step m_eqb m_empty w_validate w_merge clock_at str_ltb idfun false false prog).
   Notation run := (run m_eqb m_empty w_validate w_merge clock_at str_ltb idfun false false prog).
-  Notation enabled := (enabled m_eqb m_empty w_validate w_merge clock_at str_ltb idfun false prog).
+  Notation enabled := (enabled m_eqb m_empty w_validate w_merge clock_at str_ltb idfun false false prog).
   Notation s0 := (s0 prog v0 c0).
   Notation Inv := (Inv m_eqb m_empty w_validate w_merge clock_at str_ltb idfun prog v0 c0).
 
@@ -1022,4 +1022,417 @@ Section Proofs.
       + intros u Hu. eapply csub_frame; [exact Ec|intros; reflexivity|exact Hsk|apply TI; exact Hu].
   Qed.
 
+  Lemma run_snoc' pre t : run (pre ++ [t]) s0 = step t (run pre s0).
+  Proof. unfold Lts.run. rewrite fold_left_app. reflexivity. Qed.
+
+  Lemma inv_at sched : Inv sched (run sched s0).
+  Proof. apply inv_run; assumption. Qed.
+
+  Theorem tinv_run sched : TInv (run sched s0).
+  Proof.
+    induction sched as [|t pre IH] using rev_ind.
+    - exact tinv_init.
+    - rewrite run_snoc'. eapply tinv_step; [apply inv_at|exact IH].
+  Qed.
+
+  Lemma done_no_pending s : TInv s -> all_done s = true -> st_pendv s = [] /\ st_pendc s = [].
+  Proof.
+    intros SI D. unfold all_done in D. rewrite forallb_forall in D. split.
+    - destruct (st_pendv s) as [|a r] eqn:E; [reflexivity|]. exfalso.
+      assert (In a (st_pendv s)) by (rewrite E; left; reflexivity).
+      apply (t_pv SI) in H. destruct H as (p & Q & S). apply nth_error_In in Q. apply D in Q.
+      destruct p; discriminate.
+    - destruct (st_pendc s) as [|a r] eqn:E; [reflexivity|]. exfalso.
+      assert (In a (st_pendc s)) by (rewrite E; left; reflexivity).
+      apply (t_pc SI) in H. destruct H as (p & Q & S). apply nth_error_In in Q. apply D in Q.
+      destruct p; discriminate.
+  Qed.
+
+  Lemma done_all_left s : TInv s -> all_done s = true ->
+    st_leftv s = List.length (st_logv s) /\ st_leftc s = List.length (st_logc s).
+  Proof.
+    intros TI D. destruct (done_no_pending TI D) as [Ev Ec].
+    pose proof (t_cntv TI) as A. pose proof (t_cntc TI) as B. rewrite Ev in A. rewrite Ec in B. simpl in *.
+    rewrite (t_lenv TI), (t_lenc TI). lia.
+  Qed.
+
+  (* ---------- C03: publications leave in commit order, for every program and schedule ---------- *)
+  (* Commit n of a resource is entry n-1 of its log.  At every moment, what a subscriber has been
+     delivered is EXACTLY the commits numbered from+1 .. left, in that order, where left is the last
+     commit that has left the turnstile and from is where the subscription starts: the last commit
+     that had left when it was registered (vs_left / cs_left), or, for a seeded Collection
+     subscription, the commit counter its snapshot was taken at (cs_cnt >= cs_left: the commits in
+     between are the skip set, which the snapshot already shows).  So: increasing commit order, no
+     gap, no repetition, and every commit that has left has been delivered to every subscriber
+     registered before its publication that does not skip it. *)
+  Theorem publications_in_commit_order sched :
+    let s := run sched s0 in
+    (st_leftv s <= st_cntv s)%nat /\ List.length (st_logv s) = st_cntv s /\
+    (st_leftc s <= st_cntc s)%nat /\ List.length (st_logc s) = st_cntc s /\
+    (forall u, In u (st_vsubs s) ->
+       (vs_left u <= st_leftv s)%nat /\
+       map Some (vs_evs u) = map (fun n => nth_error (st_logv s) (n - 1)) (seq (S (vs_left u)) (st_leftv s - vs_left u))) /\
+    (forall u, In u (st_csubs s) ->
+       (cs_left u <= cs_cnt u <= st_cntc s)%nat /\ (cs_left u <= st_leftc s)%nat /\
+       map Some (cs_evs u) = map (fun n => nth_error (st_logc s) (n - 1)) (seq (S (from_c u)) (st_leftc s - from_c u)) /\
+       (* the skip set is the set of pending commits numbered up to the snapshot's *)
+       (ro_updates_only (cs_ro u) = false ->
+        forall a, In a (st_pendc s) -> (In a (cs_skip u) <-> (st_tkt s a <= cs_cnt u)%nat))).
+  Proof.
+    simpl. pose proof (tinv_run sched) as TI.
+    pose proof (t_cntv TI) as A. pose proof (t_cntc TI) as B.
+    split; [lia|]. split; [apply TI|]. split; [lia|]. split; [apply TI|]. split.
+    - intros u Hu. destruct (t_vsubs TI _ Hu) as [L E _]. split; [exact L|]. rewrite E.
+      apply seg_is_map_seq. rewrite (t_lenv TI). lia.
+    - intros u Hu. destruct (t_csubs TI _ Hu) as [L1 L2 L3 E K _ _ _ _ _].
+      split; [lia|]. split; [exact L2|]. split; [|exact K]. rewrite E.
+      apply seg_is_map_seq. rewrite (t_lenc TI). lia.
+  Qed.
+
+  Theorem never_reordered sched : st_reordered (run sched s0) = false.
+  Proof. apply (t_noreorder (tinv_run sched)). Qed.
+
+  (* at every moment a seeded subscriber's view is List as of the last commit delivered to it *)
+  Theorem view_tracks_delivered sched u :
+    let s := run sched s0 in
+    In u (st_csubs s) -> plain_sub u ->
+    exists L, view_inv (cs_ro u) (cview u) L /\
+              chain L (skipn (List.length (cs_evs u)) (skipn (cs_cnt u) (st_logc s))) (c_items (w_c (st_w s))).
+  Proof.
+    simpl. intros Hu Hp. pose proof (tinv_run sched) as TI.
+    destruct (t_csubs TI _ Hu) as [L1 L2 L3 E _ _ _ Hs C _]. specialize (C Hp).
+    unfold plain_sub in Hp. unfold from_c in E. rewrite Hp in E. unfold seg in E.
+    rewrite <- (firstn_skipn (st_leftc (run sched s0) - cs_cnt u) (skipn (cs_cnt u) (st_logc (run sched s0)))) in C.
+    rewrite <- E in C. apply chain_split in C. destruct C as (L & CA & CB). exists L. split.
+    - destruct u as [tid ro at_ evs sk lf cn]. simpl in *. rewrite cview_all.
+      eapply chain_keeps_view; [exact CA|]. apply cview_fresh; assumption.
+    - rewrite E at 1. rewrite firstn_length, skipn_length.
+      assert (X : forall k (l : list cevent), skipn (Nat.min k (List.length l)) l = skipn k l).
+      { intros k l. destruct (le_lt_dec k (List.length l)); [rewrite Nat.min_l by lia; reflexivity|].
+        rewrite Nat.min_r by lia. rewrite !skipn_all2 by lia. reflexivity. }
+      rewrite <- skipn_length, X. exact CB.
+  Qed.
+
+  (* ---------- C03: convergence, for every program and schedule ---------- *)
+  Theorem converges_collection sched u :
+    let s := run sched s0 in
+    all_done s = true -> In u (st_csubs s) -> plain_sub u ->
+    forall id, vlookup id (cview u) = vlookup id (c_list r_filter (w_c (st_w s)) (ro_mask (cs_ro u)) (ro_include (cs_ro u))).
+  Proof.
+    simpl. intros D Hu Hp id. pose proof (tinv_run sched) as TI.
+    destruct (done_all_left TI D) as [_ El].
+    destruct (t_csubs TI _ Hu) as [_ _ _ E _ _ _ Hs C _]. specialize (C Hp).
+    unfold plain_sub in Hp. unfold from_c in E. rewrite Hp, El, seg_all in E. rewrite <- E in C.
+    assert (V : view_inv (cs_ro u) (cview u) (c_items (w_c (st_w (run sched s0))))).
+    { destruct u as [tid ro at_ evs sk lf cn]. simpl in *. rewrite cview_all.
+      eapply chain_keeps_view; [exact C|]. apply cview_fresh; assumption. }
+    destruct V as [_ Hv]. rewrite Hv. symmetry.
+    apply (@list_shows _ _ r_filter str_ltb ltb_irrefl ltb_trans). apply (i_sorted (inv_at sched)).
+  Qed.
+
+  Theorem converges_collection_updates_only sched u :
+    let s := run sched s0 in
+    all_done s = true -> In u (st_csubs s) -> uo_sub u ->
+    forall id, touched u id ->
+               vlookup id (cview u) = vlookup id (c_list r_filter (w_c (st_w s)) (ro_mask (cs_ro u)) None).
+  Proof.
+    simpl. intros D Hu Hp id Hid. pose proof (tinv_run sched) as TI.
+    destruct (done_all_left TI D) as [_ El].
+    destruct (t_csubs TI _ Hu) as [_ _ _ E _ _ _ _ _ C]. destruct Hp as [RI UO]. destruct (C UO) as (L & CL).
+    unfold from_c in E. rewrite UO, El, seg_all in E. rewrite <- E in CL.
+    assert (V : uview_inv u (c_items (w_c (st_w (run sched s0))))).
+    { destruct u as [tid ro at_ evs sk lf cn]. simpl in *.
+      change evs with ([] ++ evs). eapply uview_chain; [exact RI|exact CL|]. apply uview_fresh. exact UO. }
+    destruct V as [_ Hv]. rewrite (Hv _ Hid). rewrite <- RI. symmetry.
+    apply (@list_shows _ _ r_filter str_ltb ltb_irrefl ltb_trans). apply (i_sorted (inv_at sched)).
+  Qed.
+
+  (* ---------- PullID: the collection stream restricted to one id (Pull.pull_id_from) ---------- *)
+  Lemma pull_id_fold id (cs : list (cchange M)) : forall view vs,
+    pull_id_from id cs = (vs, false) ->
+    vlookup id (fold_left (@apply_change M) cs view) =
+    match rev vs with v :: _ => Some (vc_value v) | [] => vlookup id view end.
+  Proof.
+    induction cs as [|c r IH]; intros view vs H; simpl in *.
+    - inversion H. reflexivity.
+    - destruct (String.eqb_spec (cc_id c) id) as [E|Hne]; simpl in H.
+      + unfold apply_change at 2. destruct (cc_kind c) eqn:K; destruct (cc_new c) as [v|] eqn:N; try discriminate;
+          destruct (pull_id_from id r) as [rest cl] eqn:R; inversion H; subst; simpl;
+          rewrite (IH _ _ eq_refl), vlookup_set_same;
+          destruct (rev rest) as [|v' t]; reflexivity.
+      + rewrite (IH _ _ H). destruct (rev vs); [|reflexivity].
+        unfold apply_change. destruct (cc_kind c); destruct (cc_new c); try reflexivity;
+          first [apply vlookup_set_other|apply vlookup_del_other]; congruence.
+  Qed.
+
+  (* a PullID subscription that has not ended holds the item's current value (nothing if absent) *)
+  Theorem converges_pull_id sched u id vs :
+    let s := run sched s0 in
+    all_done s = true -> In u (st_csubs s) -> plain_sub u ->
+    pull_id_from id (cstream u) = (vs, false) ->
+    last_value vs = vlookup id (c_list r_filter (w_c (st_w s)) (ro_mask (cs_ro u)) (ro_include (cs_ro u))).
+  Proof.
+    simpl. intros D Hu Hp H.
+    rewrite <- (@converges_collection sched u D Hu Hp id).
+    unfold cview, fold_view. rewrite (@pull_id_fold id _ [] _ H). unfold last_value.
+    destruct (rev vs); reflexivity.
+  Qed.
+
+  Theorem converges_value sched u :
+    let s := run sched s0 in
+    all_done s = true -> In u (st_vsubs s) ->
+    (ro_updates_only (vs_ro u) = false \/ vs_evs u <> []) ->
+    last_value (vstream u) = option_map (filt (vs_ro u)) (v_val (w_v (st_w s))).
+  Proof.
+    simpl. intros D Hu Hne. pose proof (tinv_run sched) as TI.
+    destruct (done_all_left TI D) as [El _].
+    destruct (t_vsubs TI _ Hu) as [L E A]. rewrite El, seg_all in E.
+    rewrite last_value_vlast. unfold vlast.
+    destruct (rev (vs_evs u)) as [|e r] eqn:R.
+    - assert (E0 : vs_evs u = []) by (rewrite <- (rev_involutive (vs_evs u)), R; reflexivity).
+      destruct Hne as [UO|C]; [|contradiction]. rewrite UO.
+      rewrite E0 in E. symmetry in E.
+      assert (Hl : vs_left u = List.length (st_logv (run sched s0))).
+      { pose proof (skipn_length (vs_left u) (st_logv (run sched s0))) as X. rewrite E in X. simpl in X. lia. }
+      rewrite (A Hl). reflexivity.
+    - rewrite (t_val TI). unfold last_ev.
+      rewrite <- (firstn_skipn (vs_left u) (st_logv (run sched s0))), rev_app_distr, <- E, R. reflexivity.
+  Qed.
+
+  (* ---------- the ticket discipline cannot deadlock ---------- *)
+  Lemma trans_progress (c : call) p w : pc_wf c p w -> is_done p = false -> trans c p w <> None.
+  Proof.
+    intros Hwf Hd. unfold Lts.trans.
+    destruct c as [msg o|id0 msg o|id0 o|ro|ro|id1 ro]; destruct p as [|old cr|nv e|nv e|seen n|r|];
+      simpl in Hwf; try contradiction; try discriminate.
+    - destruct (w_validate (wo_writer o)); discriminate.
+    - destruct (change_fn m_eqb m_empty w_merge o msg old); [|discriminate].
+      destruct (om_eqb m_eqb old (v_val (w_v w))); [|discriminate].
+      destruct (update_time clock_at o (v_reads (w_v w))). discriminate.
+    - destruct (w_validate (wo_writer o)); [discriminate|].
+      destruct (c_get_fn m_empty false o (apply_id idfun id0) false (c_items (w_c w))) as [[b|code] cr]; discriminate.
+    - destruct (change_fn m_eqb m_empty w_merge o msg old); [|discriminate].
+      destruct (c_get_fn m_empty false o (apply_id idfun id0) cr (c_items (w_c w))) as [[b|code] cr']; [|discriminate].
+      destruct (om_eqb m_eqb old (Some b)); [|discriminate].
+      destruct (update_time clock_at o (c_reads (w_c w))). discriminate.
+    - destruct (Nat.leb 5 n); [discriminate|].
+      destruct (del_check m_eqb o seen) eqn:DC; [discriminate|].
+      destruct (same_ptr seen (lookup_st (apply_id idfun id0) w)); [|discriminate].
+      destruct seen as [[it st]|]; [|simpl in DC; discriminate].
+      destruct (update_time clock_at o (c_reads (w_c w))). discriminate.
+  Qed.
+
+  Lemma not_all_done (pcs : list pc) : forallb (@is_done M) pcs = false ->
+    exists t p, nth_error pcs t = Some p /\ is_done p = false.
+  Proof.
+    induction pcs as [|q r IH]; simpl; [discriminate|]. destruct (is_done q) eqn:D; simpl.
+    - intros H. destruct (IH H) as (t & p & A & B). exists (S t), p. auto.
+    - intros _. exists O, q. auto.
+  Qed.
+
+  Lemma enabled_step t s :
+    (enabled t s = true -> st_stutter (step t s) = st_stutter s) /\
+    (enabled t s = false -> step t s = stutter s).
+  Proof.
+    unfold Lts.enabled, Lts.step.
+    destruct (nth_error prog t) as [c|]; [|split; [discriminate|reflexivity]].
+    destruct (nth_error (st_pcs s) t) as [p|]; [|split; [discriminate|reflexivity]].
+    destruct (trans c p (st_w s)) as [[[p' w'] eff]|]; [|split; [discriminate|reflexivity]].
+    destruct (gate_open false t s p eff); split; try discriminate; reflexivity.
+  Qed.
+
+  (* In every reachable state: the publication at the head of a turnstile's queue is enabled (so a
+     Delete that is waiting for it -- in the code: under the write lock -- cannot keep it back, and
+     the turnstile never closes a cycle), and as long as some call has not returned some step is
+     enabled.  (Consumers keep receiving: a publication is one step.) *)
+  Theorem ticket_progress sched :
+    let s := run sched s0 in
+    (forall t rest, st_pendv s = t :: rest -> enabled t s = true) /\
+    (forall t rest, st_pendc s = t :: rest -> enabled t s = true) /\
+    (all_done s = false -> exists t, enabled t s = true).
+  Proof.
+    simpl. pose proof (tinv_run sched) as TI. pose proof (inv_at sched) as I.
+    set (s := run sched s0) in *.
+    assert (Hprog : forall t p, nth_error (st_pcs s) t = Some p -> exists c, nth_error prog t = Some c).
+    { intros t p Q. assert (La : (t < List.length prog)%nat).
+      { rewrite <- (i_len I). apply nth_error_Some. rewrite Q. discriminate. }
+      destruct (nth_error prog t) as [c|] eqn:P; [eauto|]. apply nth_error_None in P. lia. }
+    assert (HV : forall t rest, st_pendv s = t :: rest -> enabled t s = true).
+    { intros t rest E.
+      assert (Hin : In t (st_pendv s)) by (rewrite E; left; reflexivity).
+      destruct (t_evv TI _ Hin) as (q & e & Q & S & _).
+      destruct (Hprog _ _ Q) as (c & P). destruct (i_local I _ P Q) as [Hwf _].
+      pose proof (t_tkv TI) as TK. rewrite E in TK. apply tickets_tail in TK. destruct TK as [TK _].
+      unfold Lts.enabled. rewrite P, Q.
+      destruct q; try discriminate. destruct c; simpl in Hwf; try contradiction.
+      simpl. rewrite TK. apply Nat.eqb_refl. }
+    assert (HC : forall t rest, st_pendc s = t :: rest -> enabled t s = true).
+    { intros t rest E.
+      assert (Hin : In t (st_pendc s)) by (rewrite E; left; reflexivity).
+      destruct (t_evc TI _ Hin) as (q & e & Q & S & _).
+      destruct (Hprog _ _ Q) as (c & P). destruct (i_local I _ P Q) as [Hwf _].
+      pose proof (t_tkc TI) as TK. rewrite E in TK. apply tickets_tail in TK. destruct TK as [TK _].
+      unfold Lts.enabled. rewrite P, Q.
+      destruct q; try discriminate. destruct c; simpl in Hwf; try contradiction.
+      simpl. rewrite TK. apply Nat.eqb_refl. }
+    split; [exact HV|]. split; [exact HC|].
+    intros D.
+    destruct (st_pendv s) as [|a r] eqn:Ev; [|exists a; eapply HV; reflexivity].
+    destruct (st_pendc s) as [|a r] eqn:Ec; [|exists a; eapply HC; reflexivity].
+    destruct (not_all_done _ D) as (t & p & Q & Hd). exists t.
+    destruct (Hprog _ _ Q) as (c & P). destruct (i_local I _ P Q) as [Hwf _].
+    pose proof (trans_progress _ _ _ Hwf Hd) as TP.
+    unfold Lts.enabled. rewrite P, Q.
+    destruct (trans c p (st_w s)) as [[[p' w'] eff]|]; [|contradiction].
+    unfold Lts.gate_open. simpl.
+    assert (Hv : is_pv p = false).
+    { destruct (is_pv p) eqn:X; [|reflexivity]. exfalso.
+      assert (In t (st_pendv s)) by (apply (t_pv TI); eauto). rewrite Ev in H. destruct H. }
+    assert (Hc : is_pc p = false).
+    { destruct (is_pc p) eqn:X; [|reflexivity]. exfalso.
+      assert (In t (st_pendc s)) by (apply (t_pc TI); eauto). rewrite Ec in H. destruct H. }
+    pose proof (t_cntc TI) as B. rewrite Ec in B. simpl in B.
+    destruct p; try discriminate; try reflexivity.
+    destruct eff; try reflexivity. apply Nat.eqb_eq. lia.
+  Qed.
+
+  (* ---------- when commits cannot overlap: the turnstile never makes anyone wait ---------- *)
+  Definition is_writer (c : call) : bool :=
+    match c with CSet _ _ | CUpdate _ _ _ | CDelete _ _ => true | _ => false end.
+  Definition idle (p : pc) : bool := match p with PStart | PDone _ => true | _ => false end.
+
+  (* one writer at a time: whenever a writing thread takes a step, every other writing thread is
+     idle — it has not started or has returned.  (A single writer issuing its calls one after the
+     other; subscribers may take their step anywhere.) *)
+  Definition one_writer_at_a_time (sched : list nat) : Prop :=
+    forall k t c, nth_error sched k = Some t -> nth_error prog t = Some c -> is_writer c = true ->
+    forall t' c' p', t' <> t -> nth_error prog t' = Some c' -> is_writer c' = true ->
+                     nth_error (st_pcs (run (firstn k sched) s0)) t' = Some p' -> idle p' = true.
+
+  Lemma pending_is_busy_writer s pre a :
+    Inv pre s -> TInv s -> In a (st_pendv s) \/ In a (st_pendc s) ->
+    exists c p, nth_error prog a = Some c /\ nth_error (st_pcs s) a = Some p /\ is_writer c = true /\ idle p = false /\
+                (is_pv p = true \/ is_pc p = true).
+  Proof.
+    intros I SI H.
+    assert (G : exists p, nth_error (st_pcs s) a = Some p /\ (is_pv p = true \/ is_pc p = true)).
+    { destruct H as [H|H]; [apply (t_pv SI) in H|apply (t_pc SI) in H]; destruct H as (p & Q & S); eauto. }
+    destruct G as (p & Q & S).
+    assert (La : (a < List.length prog)%nat).
+    { rewrite <- (i_len I). apply nth_error_Some. rewrite Q. discriminate. }
+    destruct (nth_error prog a) as [c|] eqn:P; [|apply nth_error_None in P; lia].
+    exists c, p. destruct (i_local I _ P Q) as [Hwf _].
+    destruct p; destruct S as [S|S]; try discriminate; destruct c; simpl in Hwf; try contradiction; auto 10.
+  Qed.
+
+  Lemma overlap_step s pre t :
+    Inv pre s -> TInv s -> st_overlap s = false ->
+    (forall c, nth_error prog t = Some c -> is_writer c = true ->
+               forall a, In a (st_pendv s) \/ In a (st_pendc s) -> a = t) ->
+    st_overlap (step t s) = false.
+  Proof.
+    intros I SI Ho Hp0. unfold Lts.step.
+    destruct (nth_error prog t) as [c|] eqn:P; [|exact Ho].
+    destruct (nth_error (st_pcs s) t) as [p|] eqn:Q; [|exact Ho].
+    destruct (trans c p (st_w s)) as [[[p' w'] eff]|] eqn:T; [|exact Ho].
+    destruct (gate_open false t s p eff); [|exact Ho].
+    simpl. rewrite Ho. simpl.
+    destruct (is_writer c) eqn:W.
+    2:{ (* a subscriber's step commits nothing *)
+        destruct c; try discriminate; unfold Lts.trans in T; destruct p; try discriminate;
+          inversion T; subst; reflexivity. }
+    pose proof (Hp0 _ eq_refl W) as Hp.
+    destruct (trans_effect _ _ _ T) as (TE1 & TE2 & TE3).
+    (* if anything is pending it is t itself, parked before its publication: its step publishes *)
+    assert (G : st_pendv s = [] /\ st_pendc s = [] \/ (is_pv p = true \/ is_pc p = true)).
+    { destruct (st_pendv s) as [|a r] eqn:Ev.
+      - destruct (st_pendc s) as [|a r] eqn:Ec; [left; auto|]. right.
+        assert (a = t) by (apply Hp; right; left; reflexivity). subst a.
+        assert (In t (st_pendc s)) by (rewrite Ec; left; reflexivity).
+        apply (t_pc SI) in H. destruct H as (p0 & Q0 & S0). rewrite Q in Q0. inversion Q0. subst. auto.
+      - right. assert (a = t) by (apply Hp; left; left; reflexivity). subst a.
+        assert (In t (st_pendv s)) by (rewrite Ev; left; reflexivity).
+        apply (t_pv SI) in H. destruct H as (p0 & Q0 & S0). rewrite Q in Q0. inversion Q0. subst. auto. }
+    destruct G as [[-> ->]|[S|S]].
+    - simpl. destruct (is_some (saved_v p')); [reflexivity|]. destruct (is_some (saved_c p')); [reflexivity|].
+      apply andb_false_r.
+    - destruct p; try discriminate. destruct TE2 as [-> ->]. reflexivity.
+    - destruct p; try discriminate. destruct TE2 as [-> ->]. reflexivity.
+  Qed.
+
+  Theorem one_writer_no_overlap sched : one_writer_at_a_time sched -> st_overlap (run sched s0) = false.
+  Proof.
+    intros H.
+    assert (G : forall pre suf, sched = pre ++ suf -> st_overlap (run pre s0) = false).
+    { induction pre as [|t pre IH] using rev_ind; intros suf E; [reflexivity|].
+      rewrite run_snoc'. rewrite <- app_assoc in E. simpl in E.
+      eapply overlap_step; [apply inv_at|apply tinv_run|eapply IH; eauto|].
+      intros ct Pt Wt a Ha. destruct (Nat.eq_dec a t) as [|Hne]; [assumption|exfalso].
+      destruct (@pending_is_busy_writer _ _ _ (inv_at pre) (tinv_run pre) Ha) as (c & p & P & Q & W & B & _).
+      assert (N : nth_error sched (List.length pre) = Some t).
+      { rewrite E, nth_error_app2 by lia. rewrite Nat.sub_diag. reflexivity. }
+      assert (F : firstn (List.length pre) sched = pre).
+      { rewrite E, firstn_app, firstn_all, Nat.sub_diag. simpl. apply app_nil_r. }
+      pose proof (H _ _ _ N Pt Wt a c p Hne P W) as K. rewrite F in K. rewrite (K Q) in B. discriminate. }
+    apply (G sched []). rewrite app_nil_r. reflexivity.
+  Qed.
+
+  (* with one writer at a time no step of a call that has not returned is ever disabled: the
+     turnstile is free whenever the writer reaches it *)
+  Theorem one_writer_never_waits sched k t p :
+    one_writer_at_a_time sched -> nth_error sched k = Some t ->
+    nth_error (st_pcs (run (firstn k sched) s0)) t = Some p -> is_done p = false ->
+    enabled t (run (firstn k sched) s0) = true.
+  Proof.
+    intros H N Q Hd. set (pre := firstn k sched) in *.
+    pose proof (tinv_run pre) as TI. pose proof (inv_at pre) as I.
+    assert (La : (t < List.length prog)%nat).
+    { rewrite <- (i_len I). apply nth_error_Some. rewrite Q. discriminate. }
+    destruct (nth_error prog t) as [c|] eqn:P; [|apply nth_error_None in P; lia].
+    destruct (i_local I _ P Q) as [Hwf _].
+    pose proof (trans_progress _ _ _ Hwf Hd) as TP.
+    unfold Lts.enabled. rewrite P, Q.
+    destruct (trans c p (st_w (run pre s0))) as [[[p' w'] eff]|] eqn:T; [|contradiction].
+    assert (Honly : is_writer c = true -> forall a, In a (st_pendv (run pre s0)) \/ In a (st_pendc (run pre s0)) -> a = t).
+    { intros W a Ha. destruct (Nat.eq_dec a t) as [|Hne]; [assumption|exfalso].
+      destruct (@pending_is_busy_writer _ _ _ I TI Ha) as (c' & p0 & P' & Q' & W' & B & _).
+      pose proof (H _ _ _ N P W a c' p0 Hne P' W' Q') as K. rewrite K in B. discriminate. }
+    unfold Lts.gate_open. simpl.
+    destruct p; try reflexivity.
+    - (* value.publish: t is the only pending thread *)
+      assert (W : is_writer c = true) by (destruct c; simpl in Hwf; try contradiction; reflexivity).
+      assert (Hin : In t (st_pendv (run pre s0))) by (apply (t_pv TI); eauto).
+      pose proof (t_tkv TI) as TK. pose proof (t_ndv TI) as ND.
+      destruct (st_pendv (run pre s0)) as [|a r] eqn:E; [destruct Hin|].
+      assert (a = t) by (apply (Honly W); left; left; reflexivity). subst a.
+      apply tickets_tail in TK. destruct TK as [TK _]. rewrite TK. apply Nat.eqb_refl.
+    - assert (W : is_writer c = true) by (destruct c; simpl in Hwf; try contradiction; reflexivity).
+      assert (Hin : In t (st_pendc (run pre s0))) by (apply (t_pc TI); eauto).
+      pose proof (t_tkc TI) as TK.
+      destruct (st_pendc (run pre s0)) as [|a r] eqn:E; [destruct Hin|].
+      assert (a = t) by (apply (Honly W); right; left; reflexivity). subst a.
+      apply tickets_tail in TK. destruct TK as [TK _]. rewrite TK. apply Nat.eqb_refl.
+    - (* a Delete: nothing is pending *)
+      assert (W : is_writer c = true) by (destruct c; simpl in Hwf; try contradiction; reflexivity).
+      destruct eff; try reflexivity. apply Nat.eqb_eq.
+      pose proof (t_cntc TI) as B.
+      destruct (st_pendc (run pre s0)) as [|a r] eqn:E; [simpl in B; lia|exfalso].
+      assert (a = t) by (apply (Honly W); right; left; reflexivity). subst a.
+      assert (Hin : In t (st_pendc (run pre s0))) by (rewrite E; left; reflexivity).
+      apply (t_pc TI) in Hin. destruct Hin as (p0 & Q0 & S0). rewrite Q in Q0. inversion Q0. subst. discriminate.
+  Qed.
+
+  (* any number of concurrent Deletes (they publish under the lock): nothing is ever pending *)
+  Definition only_deletes_write : Prop :=
+    forall t c, nth_error prog t = Some c -> match c with CSet _ _ | CUpdate _ _ _ => False | _ => True end.
+
+  Theorem deletes_no_overlap sched : only_deletes_write -> st_overlap (run sched s0) = false.
+  Proof.
+    intros H. induction sched as [|t pre IH] using rev_ind; [reflexivity|].
+    rewrite run_snoc'. eapply overlap_step; [apply inv_at|apply tinv_run|exact IH|].
+    intros ct Pt Wt a Ha. exfalso.
+    destruct (@pending_is_busy_writer _ _ _ (inv_at pre) (tinv_run pre) Ha) as (c & p & P & Q & _ & _ & S).
+    destruct (i_local (inv_at pre) _ P Q) as [Hwf _]. specialize (H _ _ P).
+    destruct p; destruct S as [S|S]; try discriminate; destruct c; simpl in Hwf; contradiction.
+  Qed.
 End Proofs.
